@@ -356,7 +356,7 @@ fn main() {
             let mut rng = Rng::new(args.seed);
             let full = args.tier == "thorough";
             let total_sys = if full { 512 * NCLASS * LENS.len() } else { 512 * 3 };
-            let nsys = total_sys.min(args.n * 2 / 5);
+            let nsys = total_sys.min(args.n / 2);
             for id in 0..args.n {
                 if id == 0 {
                     println!("{} kind=tab abc=dna", id);
